@@ -30,6 +30,8 @@ def scenarios(tier):
         ("r2_close", [[R], [R], [CL]], False),
         ("r2w1_close", [[R], [R], [W(5)], [CL]], False),
         ("wwc_rrr", [[W(5), W(6), CL], [R, Rs, R]], False),
+        ("r2_wwc", [[R], [R], [W(5), W(6), CL]], False),
+        ("r3_wwwc", [[R], [R], [R], [W(5), W(6), W(7), CL]], False),
         ("r_dlpast", [[R], [DL("passed")]], False),
         ("r_w_dlpast", [[R], [W(5)], [DL("passed")]], False),
         ("r2_dlfuture_adv", [[R], [R], [DL("future")]], True),
